@@ -1,1 +1,4 @@
 // hook file for ntp-proto/src/algorithm/mod.rs: declares the per-property harness modules
+#[cfg(any(verif_all, verif_c05))]
+#[path = "/verif/harness/ntp-proto/c05.rs"]
+mod c05;
